@@ -417,8 +417,10 @@ impl Exec {
 
     /// Everything the property says an accepted position can be handed to.
     fn safe_use(&mut self, b: &Board, src: &str) -> Result<(), Violation> {
-        let men_stm = observe(b).sq.iter().filter(|x| matches!(x, Some((_, c)) if *c == col_from_lib(b.side_to_move()))).count();
-        let disc = if men_stm > 16 { "men_of_side_to_move>16" } else { "ordinary_material" };
+        let ob = observe(b);
+        let men_w = ob.sq.iter().filter(|x| matches!(x, Some((_, Col::W)))).count();
+        let men_b = ob.sq.iter().filter(|x| matches!(x, Some((_, Col::B)))).count();
+        let disc = if men_w.max(men_b) > 16 { "men_of_one_side>16" } else { "ordinary_material" };
         let bb = *b;
         let r = guard(move || {
             let g = MoveGen::new_legal(&bb);
